@@ -61,9 +61,17 @@ func init() {
 			}
 		}
 		r.Extra["interleavings_executed"] = n
+		// removal under command-level Redis faults (a failed DEL must be an error, a reported success must have erased the
+		// key) and the end-session URI under endpoint discovery
+		if r.unknownViolations() == 0 {
+			redisFaultSweep(r, "[C09]", map[string]bool{"remove": true, "gettok": true})
+		}
+		if r.unknownViolations() == 0 {
+			discSweep(r, "[C09]")
+		}
 		if r.unknownViolations() == 0 {
 			runHistories(r, profile{Hostile: 10, Faults: 12, Attack: 10, Logout: 30, Ticks: 15, Histories: scale(r, 40, 1000), Length: 45},
-				"(a) every interleaving, at store-call / token-endpoint-call / key-lookup granularity, of a logout with one (thorough: two) concurrent checks on the same session (fresh, expired-refreshable, application request), on real goroutines under the controlled scheduler, memory and Redis store, followed by a sequential probe with the old cookie; (b) "+histRule)
+				"(a0) RemoveSession / GetTokenResponse of the Redis store with every single (and random multiple) command-level fault, applied or not, from five prior states x four timeout pairs, command trace and raw server state compared with the command-level model; NewOIDCHandler with configuration_uri over logout section x key configuration x sequences of two discovery answers (documents, statuses, undecodable, transport error); (a) every interleaving, at store-call / token-endpoint-call / key-lookup granularity, of a logout with one (thorough: two) concurrent checks on the same session (fresh, expired-refreshable, application request), on real goroutines under the controlled scheduler, memory and Redis store, followed by a sequential probe with the old cookie; (b) "+histRule)
 			return
 		}
 		r.Finish("interleavings of a logout with concurrent checks under the controlled scheduler")
